@@ -580,7 +580,9 @@ func runConnClose(out caser, nchan, cap int, nqueued []int, peer, transport, nfa
 	}
 	in := sx.L{sx.I(int64(nchan)), sx.I(int64(cap)), ql, sx.I(int64(peer)), sx.I(int64(transport)), sx.I(int64(nfail))}
 	tag := fmt.Sprintf("%s;channels=%d;peer=%d;transport=%d;nfail=%d", class, nchan, peer, transport, nfail)
+	fmt.Println("DBG before close errch", e.conn.VerifErrChLen(), e.readerPan)
 	ret, _ := within(hangBound, func() { e.conn.Close() })
+	fmt.Println("DBG after close errch", e.conn.VerifErrChLen(), e.readerPan)
 	if transport == 1 {
 		e.pc.SetFailing(errors.New("connection reset by peer")) // keeps failing also after Close
 	}
